@@ -31,11 +31,19 @@ def load_module(prop: str):
     return importlib.import_module(f"sa.props.{prop.lower()}")
 
 
+def run_module(mod, ctx):
+    """check(ctx) plus the module's INCLUDE list: [(other property, rule-prefix tuple or None, why)]."""
+    mod.check(ctx)
+    for other, prefixes, why in getattr(mod, "INCLUDE", []):
+        flt = (lambda r, p=tuple(prefixes): r.startswith(p)) if prefixes else None
+        ctx.include(other, flt, why)
+
+
 def run_once(prop: str, tier: str, overlay=None, known=None):
     mod = load_module(prop)
     ctx = Ctx(prop, tier, SourceTree(overlay=overlay), known=known)
     try:
-        mod.check(ctx)
+        run_module(mod, ctx)
     except AnalysisError as e:
         if not ctx.unlisted():
             raise
@@ -146,7 +154,7 @@ def main(argv=None) -> int:
     ctx = Ctx(prop, args.tier, SourceTree(), known=known)
     try:
         try:
-            mod.check(ctx)
+            run_module(mod, ctx)
         except AnalysisError as e:
             if not ctx.unlisted():
                 raise
